@@ -35,6 +35,8 @@
 From Coq Require Import String ZArith List.
 From Acme.C10 Require Import DbcDoc BusModel Import Export Bits.
 From Acme.C11 Require Import Strings Proofs RoundTrip RoundTripEnum RoundTripAttr RoundTripMux RoundTripAll Bridge Refuted.
+From Acme.C11 Require TextBridge.
+From Acme.C08 Require Expr DbcParse DbcWrite DbcLex BridgeC10.
 Import ListNotations.
 Open Scope Z_scope.
 
@@ -151,3 +153,27 @@ Theorem export_import_receivers_without_signals_refuted :
              proj_bus b' <> proj_bus bus_receivers_without_signals.
 Proof. exact Refuted.export_import_receivers_without_signals_refuted. Qed.
 Print Assumptions export_import_receivers_without_signals_refuted.
+
+(* Composition with the C08 stream (coq/C11/TextBridge.v): `export_import` above is stated over
+   `text_roundtrip`, the MODELLED effect of dbc.Write + dbc.Parse.  For every bus of the merged fragment
+   whose exported document is DBC-expressible (`doc_ok`, `defs_small`: C08's provisos on the document),
+   C08's model of the real writer prints a text that C08's model of the real lexer + parser accepts, the
+   file read back has exactly the sections of the embedding of `text_roundtrip (export b)` (and none of the
+   sections the exporter never emits), and the import of that document reproduces the projection of `b`.
+   Oracle hypotheses (strconv laws) are those of C08's `exporter_sections_round_trip` /
+   `text_roundtrip_is_norm`, unchanged. *)
+Theorem export_text_import_composed :
+  forall (fb : DbcDoc.fl -> N) (ud : N -> bool) fmt prs,
+  Acme.C08.Expr.ud_ok ud -> Acme.C08.Expr.oracle_ok fmt prs -> (forall f, Acme.C08.Expr.fin (fb f) = true) ->
+  (forall f, DbcDoc.fl_is_decimal f = true -> Acme.C08.DbcParse.has_dot (fmt (fb f)) = true) ->
+  (forall f, DbcDoc.fl_is_decimal f = false -> (Z.abs (Export.fl_to_Z f) <= 9007199254740992)%Z ->
+             fmt (fb f) = Acme.C08.DbcWrite.format_int (Export.fl_to_Z f)) ->
+  forall b, ambus b ->
+  Acme.C08.BridgeC10.doc_ok (Acme.C08.DbcLex.peek_digits ud) (export b) -> Acme.C08.BridgeC10.defs_small (export b) ->
+  exists f b',
+    Acme.C08.DbcParse.parse ud prs false (Acme.C08.DbcWrite.write fmt false (Acme.C08.BridgeC10.doc_to_file fb (export b)))
+      = Acme.C08.DbcParse.OOk f
+    /\ TextBridge.same_sections f (Acme.C08.BridgeC10.doc_to_file fb (text_roundtrip (export b)))
+    /\ import (text_roundtrip (export b)) = Ok b' /\ proj_bus b' = proj_bus b.
+Proof. exact TextBridge.export_text_import. Qed.
+Print Assumptions export_text_import_composed.
